@@ -190,6 +190,66 @@ Definition sem_subsequence (off n : nat) (s : sem) : sem :=
   match s with Fin l => Fin (ref_subsequence off n l) | Inf g => Fin (map (fun i => g (off + i)%nat) (seq 0 n)) end.
 
 (* ================================================================================================ *)
+(** * Part 2: the reference interpreter on expressions — list functions composed.
+    [ref_eval n e]: what the expression e (nesting depth at most n) denotes; None = outside the fragment covered
+    by the composition theorem, or a constructor call that raises (PChanged of an empty input). *)
+
+Definition ref_arg (rec : pexpr -> option sem) (a : earg) : option sem :=
+  match a with
+  | EV v => Some (Inf (fun _ => v))            (* a scalar operand is the constant stream *)
+  | EP e => rec e
+  | _ => None
+  end.
+
+Definition ref_call (rec : pexpr -> option sem) (c : cls) (args : list earg) : option sem :=
+  match c with
+  | CConstant => match args with [EV v] => Some (Inf (fun _ => v)) | _ => None end
+  | CSeries =>
+      match args with
+      | [EV (VInt a); EV (VInt d); EV (VInt n)] => if 0 <=? n then Some (Fin (ref_series a d (Z.to_nat n))) else None
+      | _ => None
+      end
+  | CRange =>
+      match args with
+      | [EV (VInt a); EV (VInt e); EV (VInt d)] => if d =? 0 then None else Some (Fin (ref_range a e d))
+      | _ => None
+      end
+  | CGeom =>
+      match args with
+      | [EV (VInt a); EV (VInt m); EV (VInt n)] => if 0 <=? n then Some (Fin (ref_geom a m (Z.to_nat n))) else None
+      | _ => None
+      end
+  | CStutter =>
+      match args with
+      | [EP e; EV (VInt k)] => if 0 <? k then option_map (sem_stutter (Z.to_nat k)) (rec e) else None
+      | _ => None
+      end
+  | CSkipIf =>
+      match args with
+      | [a; b] => match ref_arg rec a, ref_arg rec b with
+                  | Some sa, Some sb => Some (sem_zip skip1 sa sb)
+                  | _, _ => None
+                  end
+      | _ => None
+      end
+  | CChanged =>
+      match args with
+      | [EP e] => match rec e with
+                  | Some (Fin []) | None => None          (* the constructor reads the first value *)
+                  | Some s => Some (sem_adj changed1 s)
+                  end
+      | _ => None
+      end
+  | _ => None
+  end.
+
+Fixpoint ref_eval (n : nat) (e : pexpr) : option sem :=
+  match n with
+  | O => None
+  | S n' => match e with ECall c args => ref_call (ref_eval n') c args end
+  end.
+
+(* ================================================================================================ *)
 (** * Part 3: Euclidean rhythms and arpeggiator orders *)
 
 (** ** PEuclidean._euclidean(length, mod) — Bjorklund's algorithm as sequence.py has it.
